@@ -1,4 +1,5 @@
 import AcraModel.Sql.Expr
+import AcraModel.Sql.ExprTokens
 /-! Driver ops for the expression fragment of C13: `expr.parse`, `expr.format`, `expr.tokens`, `expr.producible`,
 `expr.roundtrip`.
 
@@ -116,6 +117,17 @@ def handle (op : String) (args : List String) : Option String :=
       | some ts =>
           match parseExpr ts with
           | some e => some ("ok " ++ showTree e)
+          | none => some "err"
+  | "expr.conserve", _ :: _ :: _ :: toks =>
+      match toks.mapM readTok with
+      | none => some "err"
+      | some ts =>
+          match parseExpr ts with
+          | some e =>
+              let carries (l : List Tok) : String :=
+                let v := (lexemes l).map showTok
+                if v.isEmpty then "-" else ",".intercalate v
+              some s!"ok {carries ts} | {carries (tokens (format e))}"
           | none => some "err"
   | "expr.format", _ :: tree => do
       let e ← readWhole tree
